@@ -32,30 +32,31 @@ def sDefaultsL : Str := ['d','e','f','a','u','l','t','s']
 /-- **parameter names**: no colon / line break, not `return_type`, no leading `*`, not ending in `kwargs` -/
 def goodNameB (n : Str) : Bool := n.all plainC && n != sRetName && !startsWith n ['*'] && !endsWith n sKwargs
 
-/-- Boolean form of `Doc.NoEarly pat pre` -/
-def noEarlyB (pat : Str) : Str → Bool
-  | [] => true
-  | c :: cs => !pat.isPrefixOf (c :: cs ++ pat) && noEarlyB pat cs
-
 /-- **descriptions**: non-empty, one line, no ReST token inside, no blank at either end, no `Defaults`/`defaults`, no announce
-    phrase (any of the 8 `DEFAULTS_TO_VARIANTS`, case-insensitively; neither bare nor after `(`), the emitted phrase
-    ` Defaults to ` is the first `defaults to ` of the completed line (`Doc.NoEarly`, as in `C01.GoodBase`), does not start
-    with `Optional` or `(Optional)` -/
+    phrase (any of the 8 `DEFAULTS_TO_VARIANTS`, case-insensitively; neither bare nor after `(`), does not start with
+    `Optional` or `(Optional)` -/
 def goodDescB (d : Str) : Bool :=
   !d.isEmpty && oneLineB d && noTokB d && headNSB d && lastNSB d
   && !contains d sDefaultsU && !contains d sDefaultsL
   && announceVariants.all (fun v => (find (lower d) (lower v)).isNone)
   && announceVariants.all (fun v => !contains (lower d) ('(' :: lower v))
-  && noEarlyB C01.ann (lower (C01.baseOf d) ++ [' '])
   && !startsWith d sOptionalW && !startsWith d sPOptionalW
 
 /-- **types**: non-empty, one line without colon or backtick, not ending in `, optional` -/
 def goodTypB (t : Str) : Bool := !t.isEmpty && t.all typC && !endsWith t sOptSuffix
 
-/-- **defaults**: integers and booleans -/
+/-- `<digits>.<digits>` (what `repr` gives for the decimals of the generator) -/
+def decimalB (r : Str) : Bool :=
+  !(r.takeWhile Char.isDigit).isEmpty &&
+  (match r.dropWhile Char.isDigit with
+   | '.' :: f => !f.isEmpty && f.all Char.isDigit
+   | _ => false)
+
+/-- **defaults**: integers, booleans, non-negative decimals -/
 def goodDefaultB : Default → Bool
   | .int _ => true
   | .bool _ => true
+  | .float r => decimalB r
   | _ => false
 
 /-- the declared type is not one of `int float complex str bool`, or it is the default's own type -/
@@ -118,18 +119,6 @@ theorem lastNSB_sound (s : Str) (h : lastNSB s = true) : LastNS s := by
   rw [hc] at h
   simpa using h
 
-theorem noEarlyB_sound (pat pre : Str) (h : noEarlyB pat pre = true) : NoEarly pat pre := by
-  induction pre with
-  | nil => intro k hk; simp at hk
-  | cons c cs ih =>
-    simp only [noEarlyB, Bool.and_eq_true, Bool.not_eq_true'] at h
-    intro k hk
-    cases k with
-    | zero => simpa using h.1
-    | succ k =>
-      have := ih h.2 k (by simpa using hk)
-      simpa using this
-
 theorem lit_Defaults : "Defaults".toList = sDefaultsU := by decide
 theorem lit_defaults : "defaults".toList = sDefaultsL := by decide
 theorem lit_kwargs : "kwargs".toList = sKwargs := by decide
@@ -141,17 +130,96 @@ theorem not_contains_char (s : Str) (c : Char) (h : (!s.contains c) = true) : c 
   have : s.contains c = true := List.contains_iff_mem.mpr hm
   rw [this] at h; cases h
 
+theorem contains_false_of_find_none (s p : Str) (h : find s p = none) : contains s p = false := by
+  have key : ∀ (s : Str) (i : Nat), findFrom p s i = none → contains s p = false := by
+    intro s
+    induction s with
+    | nil =>
+      intro i h
+      simp only [findFrom] at h
+      split at h
+      · cases h
+      · rename_i hp; simpa [contains] using hp
+    | cons c cs ih =>
+      intro i h
+      simp only [findFrom] at h
+      split at h
+      · cases h
+      · rename_i hp
+        simp only [contains, Bool.or_eq_false_iff]
+        refine ⟨?_, ih (i + 1) h⟩
+        cases hb : p.isPrefixOf (c :: cs) with
+        | false => rfl
+        | true => exact absurd hb hp
+  exact key s 0 h
+
+theorem isPrefixOf_drop_false (X p : Str) (hp : p ≠ []) (h : contains X p = false) (k : Nat) : p.isPrefixOf (X.drop k) = false := by
+  induction X generalizing k with
+  | nil =>
+    cases p with
+    | nil => exact absurd rfl hp
+    | cons _ _ => simp [List.isPrefixOf]
+  | cons x xs ih =>
+    simp only [contains, Bool.or_eq_false_iff] at h
+    cases k with
+    | zero => simpa using h.1
+    | succ k => simpa using ih h.2 k
+
+/-- **the technical clause follows from the absence of the announce phrase**: in `lower (baseOf d) ++ " defaults to "` the
+    phrase `defaults to ` does not occur before the emitted one, because the completed description ends in `.` or `,` -/
+theorem noEarly_of_noAnnounce (d : Str) (h : find (lower d) C01.ann = none) :
+    NoEarly C01.ann (lower (C01.baseOf d) ++ [' ']) := by
+  have hc := contains_false_of_find_none _ _ h
+  -- `lower (baseOf d) ++ " "` is `X ++ [e, ' ']` with `e` a full stop or a comma and no announce phrase in `X`
+  obtain ⟨X, e, hpre, he, hX⟩ : ∃ X e, lower (C01.baseOf d) ++ [' '] = X ++ [e, ' '] ∧ (e = '.' ∨ e = ',') ∧ contains X C01.ann = false := by
+    unfold C01.baseOf
+    cases hg : d.getLast? with
+    | none => exact ⟨lower d, '.', by simp [C01.lower_append]; rfl, Or.inl rfl, hc⟩
+    | some c =>
+      simp only []
+      split
+      · rename_i hcc
+        obtain ⟨ys, rfl⟩ := List.getLast?_eq_some_iff.mp hg
+        simp only [Bool.or_eq_true, beq_iff_eq] at hcc
+        have hlc : lower (ys ++ [c]) = lower ys ++ [c] := by
+          rw [C01.lower_append]
+          rcases hcc with rfl | rfl <;> rfl
+        rw [hlc] at hc ⊢
+        exact ⟨lower ys, c, by simp, hcc, contains_prefix_false _ _ _ hc⟩
+      · exact ⟨lower d, '.', by simp [C01.lower_append]; rfl, Or.inl rfl, hc⟩
+  rw [hpre]
+  intro k hk
+  have hne : C01.ann ≠ [] := by decide
+  have he' : e ∉ C01.ann := by rcases he with rfl | rfl <;> decide
+  by_cases hlt : k < X.length
+  · rw [List.drop_append_of_le_length (by omega)]
+    have : X.drop k ++ [e, ' '] ++ C01.ann = X.drop k ++ e :: (' ' :: C01.ann) := by simp
+    rw [this, isPrefixOf_append_of_notin _ _ _ e he']
+    exact isPrefixOf_drop_false X _ hne hX k
+  · have hk' : k = X.length ∨ k = X.length + 1 := by
+      simp only [List.length_append, List.length_cons, List.length_nil] at hk; omega
+    rcases hk' with rfl | rfl
+    · rw [List.drop_left]
+      rcases he with rfl | rfl <;> decide
+    · have : (X ++ [e, ' ']).drop (X.length + 1) = [' '] := by
+        rw [List.drop_append]; simp
+      rw [this]; decide
+
 theorem goodDesc_sound (d : Str) (h : goodDescB d = true) : GoodDesc d := by
   simp only [goodDescB, Bool.and_eq_true] at h
-  obtain ⟨⟨⟨⟨⟨⟨⟨⟨⟨⟨⟨h1, h2⟩, h2'⟩, h3⟩, h4⟩, h5⟩, h6⟩, h7⟩, h8⟩, h9⟩, h10⟩, h11⟩ := h
-  refine ⟨?_, oneLineB_sound d h2, noTokB_sound d h2', headNSB_sound d h3, lastNSB_sound d h4, ?_, ?_, ?_, ?_,
-    noEarlyB_sound _ _ h9, ?_, ?_⟩
+  obtain ⟨⟨⟨⟨⟨⟨⟨⟨⟨⟨h1, h2⟩, h2'⟩, h3⟩, h4⟩, h5⟩, h6⟩, h7⟩, h8⟩, h10⟩, h11⟩ := h
+  have hann : ∀ v ∈ announceVariants, find (lower d) (lower v) = none := by
+    intro v hv
+    have := List.all_eq_true.mp h7 v hv
+    simpa using this
+  have hfirst : find (lower d) C01.ann = none := by
+    have := hann C01.ann (by decide)
+    rw [C01.lower_ann] at this; exact this
+  refine ⟨?_, oneLineB_sound d h2, noTokB_sound d h2', headNSB_sound d h3, lastNSB_sound d h4, ?_, ?_, hann, ?_,
+    noEarly_of_noAnnounce d hfirst, ?_, ?_⟩
   · rintro rfl; simp at h1
   · rw [lit_Defaults]; simpa using h5
   · rw [lit_defaults]; simpa using h6
-  · intro v hv
-    have := List.all_eq_true.mp h7 v hv
-    simpa using this
   · intro v hv
     have := List.all_eq_true.mp h8 v hv
     simpa using this
@@ -168,8 +236,48 @@ theorem goodTyp_sound (t : Str) (h : goodTypB t = true) : GoodTyp t := by
     simpa [typC, and_assoc] using this
   · rw [lit_optSuffix]; simpa using h3
 
+theorem mem_takeWhile_p {α : Type} (p : α → Bool) (l : List α) : ∀ x ∈ l.takeWhile p, p x = true := by
+  induction l with
+  | nil => intro x hx; cases hx
+  | cons a as ih =>
+    intro x hx
+    cases hp : p a with
+    | false => simp [List.takeWhile_cons, hp] at hx
+    | true =>
+      simp only [List.takeWhile_cons, hp, if_true, List.mem_cons] at hx
+      rcases hx with rfl | hx
+      · exact hp
+      · exact ih x hx
+
+theorem decimalB_sound (r : Str) (h : decimalB r = true) : DecimalText r := by
+  simp only [decimalB, Bool.and_eq_true] at h
+  obtain ⟨h1, h2⟩ := h
+  have hsplit : r = r.takeWhile Char.isDigit ++ r.dropWhile Char.isDigit := (List.takeWhile_append_dropWhile).symm
+  have hdig : ∀ x ∈ r.takeWhile Char.isDigit, x.isDigit = true := mem_takeWhile_p _ _
+  cases ha : r.takeWhile Char.isDigit with
+  | nil => rw [ha] at h1; cases h1
+  | cons c a =>
+    rw [ha] at hdig
+    cases hr : r.dropWhile Char.isDigit with
+    | nil => rw [hr] at h2; cases h2
+    | cons x f =>
+      rw [hr] at h2
+      split at h2
+      · rename_i f' heq
+        cases heq
+        simp only [Bool.and_eq_true] at h2
+        refine ⟨c, a, f, ?_, hdig c (by simp), fun y hy => hdig y (by simp [hy]), fun y hy => List.all_eq_true.mp h2.2 y hy, ?_⟩
+        · rw [hsplit, ha, hr]
+        · rintro rfl; simp at h2
+      · cases h2
 theorem goodDefault_sound (v : Default) (h : goodDefaultB v = true) : GoodDefault v := by
-  cases v <;> first | trivial | cases h
+  cases v with
+  | float r => exact decimalB_sound r h
+  | int _ => trivial
+  | bool _ => trivial
+  | str _ => cases h
+  | none => cases h
+  | code _ => cases h
 
 theorem compat_sound (typ : Option Str) (v : Default) (h : compatB typ v = true) : Compat typ v := by
   intro t ht
